@@ -9,7 +9,7 @@ LEVEL = "exploration"
 RULE = ("three case families: (1) every .ms file of the repository's example corpus as entry point of a copy of its directory; "
         "(2) programs from the generators of C01, C07, C08, C12, C13, C15 and the two-module failing programs of C17 "
         "(Hypothesis); (3) EXHAUSTIVELY all string literals up to length 3 (quick: + a seeded sample of length 4; thorough: all "
-        "of length 4) over the alphabet {quote, backslash, space, TAB, LF, CR, n, r, t, a, e-acute, emoji} in escaped and raw "
+        "of length 4) over the alphabet {quote, backslash, space, TAB, LF, CR, n, r, t, a, e-acute, emoji, NBSP, U+3000, VT} in escaped and raw "
         "source spelling, each placed as print operand, concatenation operand and map key, 150 per program. Oracle: stdout and "
         "exit class of `mscript run x.ms -q` equal those of `mscript compile x.ms --quick && mscript execute x.mmm`; for the "
         "string programs both must also equal the bytes the harness computes from the decoded strings. Non-trivial = the "
@@ -19,7 +19,9 @@ ASSUMPTIONS = ["programs that wait for input or do not terminate within the watc
                "string literals the source grammar cannot spell (none in this alphabet once escaped) are counted as inexpressible"]
 EXHAUSTIVE = {"quick": False, "thorough": True}
 
-SIGMA = ["\"", "\\", " ", "\t", "\n", "\r", "n", "r", "t", "a", "é", "😀"]
+# format-special characters: quote, backslash, the ASCII whitespace the reader splits on, the letters of the escapes, a
+# plain letter, non-ASCII text, and UNICODE whitespace (the reader tokenizes with char::is_whitespace, not with ' ')
+SIGMA = ["\"", "\\", " ", "\t", "\n", "\r", "n", "r", "t", "a", "é", "😀", "\u00a0", "\u3000", "\u000b"]
 ESC = {"\"": "\\\"", "\\": "\\\\", "\n": "\\n", "\r": "\\r", "\t": "\\t"}
 RAW = {"\"": "\\\"", "\\": "\\\\"}
 CORPUS = os.path.join(os.environ.get("VERIF_REPO", "/repo"), "examples")
@@ -82,7 +84,7 @@ def make_scenario(files, entry="main.ms", expect=None, loose=False):
 
 
 def special(text):
-    return any(c in text for c in "\\\t\r") or "\\\"" in text or "\\n" in text or any(ord(c) > 127 for c in text)
+    return any(c in text for c in "\\\t\r\u00a0\u3000\u000b") or "\\\"" in text or "\\n" in text or any(ord(c) > 127 for c in text)
 
 
 def string_program(items):
@@ -181,7 +183,7 @@ def string_cases(tier, seed):
     strings = list(all_strings(3))
     four = ["".join(t) for t in itertools.product(SIGMA, repeat=4)]
     if tier == "quick":
-        four = random.Random(seed).sample(four, 2400)
+        four = random.Random(seed).sample(four, 3000)
     strings += four
     items = []
     for s in strings:
